@@ -74,7 +74,19 @@ def make_runs(ctx, beh_file, out_file, nclients_choices, script_prob, rng):
             if not line.strip():
                 continue
             b = json.loads(line)
-            cmds = [s["c"] for s in b["h"] if s["c"]["op"] not in JSON_OPS and s["c"]["op"] != "expirenow"]
+            cmds = []
+            for s in b["h"]:
+                c = s["c"]
+                if c["op"] == "expirenow":
+                    continue
+                # JSON document commands work on their own collection (k:3), which no other command touches:
+                # in a concurrent run the generator's guard "the target is missing or a document" cannot be
+                # evaluated ahead of time
+                if c["op"] in JSON_OPS:
+                    c = dict(c, k="k:3")
+                else:
+                    c = {k: ("k:2" if (k in ("k", "k2") and v == "k:3") else v) for k, v in c.items()}
+                cmds.append(c)
             k = rng.choice(nclients_choices)
             clients = [[] for _ in range(k)]
             i = 0
